@@ -890,7 +890,9 @@ class Generator:
             try:
                 self.ref_compute(coll)
             except Exception as e_:
-                if not self.accept_internal_failures or isinstance(e_, (NotImplementedError, ValueError, TypeError)) and not isinstance(e_, (KeyError, IndexError)):
+                if not self.accept_internal_failures:
+                    raise
+                if self.accept_internal_failures != "all" and isinstance(e_, (NotImplementedError, ValueError, TypeError)) and not isinstance(e_, (KeyError, IndexError)):
                     raise
                 self.suspects += 1
             if op.get("knobs") and not self.pool_knobs:
